@@ -354,7 +354,7 @@ def replay(shard, rp):
 
 TECHNIQUE = 'exhaustive differential run of the real decoders/tables and one real step of each simulator (cross-table equality oracle)'
 LEVEL_TEXT = ('Every opcode sequence of the seven tables is pushed through Disassembler.disassemble (10 Opcodes settings), traceutils.disassemble, '
-              'opcodes.decode, z80.get_timing and one step of all four simulators; lengths, mnemonics and T-states must agree. The opcode space is '
+              'opcodes.decode, z80.get_timing (upper-case hexadecimal, decimal and lower-case renderings; data statements must have no timing) and one step of all four simulators; lengths, mnemonics and T-states must agree. The opcode space is '
               'finite and enumerated completely, so for lengths/mnemonics/timings this is exhaustive observation rather than sampling; operand bytes are sampled.')
 LEVEL_NOTE = ('Trusted: the harness state set-up (flags 00/FF, B and BC 1/2) exercises both timing members; simulator length is inferred from PC / pushed '
               'return address; DEFB statements and out-of-range relative jumps at the top of memory are compared under the documented cut-at-64K rule.')
